@@ -33,6 +33,9 @@ def jsonable(v, depth=0):
     if is_sym(v):
         return str(v)
     if isinstance(v, (bytes, bytearray)):
+        if len(v) > 8192:
+            import hashlib
+            return {'bytes_len': len(v), 'sha256': hashlib.sha256(bytes(v)).hexdigest()}
         return {'bytes': list(v)}
     if isinstance(v, V.SBytes):
         return {'bytes': [jsonable(x) for x in v.items]}
@@ -140,10 +143,14 @@ def run_path(K, loader, decisions, opts):
                 raise PathEnd()
             ctx.obligations.append(('setup-raises-only', list(ctx.pc), False, {'kind': 'raises-only', 'exc': e.obj.cls.name, 'site': e.obj.site}))
             raise PathEnd()
-        fv = call.fn if call.fn is not None else loader.find_function(K.target)
-        args = ([call.self_obj] if call.self_obj is not None else []) + list(call.args)
+        from .contract import Fragment
         try:
-            res = it.call(fv, args, dict(call.kwargs))
+            if isinstance(call.fn, Fragment):
+                res = it.run_fragment(call.fn)
+            else:
+                fv = call.fn if call.fn is not None else loader.find_function(K.target)
+                args = ([call.self_obj] if call.self_obj is not None else []) + list(call.args)
+                res = it.call(fv, args, dict(call.kwargs))
             out = Outcome('return', result=res)
         except PyExc as e:
             out = Outcome('raise', exc=e.obj.cls.name, exc_site=e.obj.site)
@@ -345,12 +352,14 @@ def sample_path(unit, loader, ctx, c, out, opts, k):
     c2.it = it
     try:
         call = K.setup(c2)
-        fv = call.fn if call.fn is not None else loader.find_function(K.target)
-        args = ([call.self_obj] if call.self_obj is not None else []) + list(call.args)
+        from .contract import Fragment
         try:
-            res = it.call(fv, args, dict(call.kwargs))
-            if isinstance(res, list) and False:
-                pass
+            if isinstance(call.fn, Fragment):
+                res = it.run_fragment(call.fn)
+            else:
+                fv = call.fn if call.fn is not None else loader.find_function(K.target)
+                args = ([call.self_obj] if call.self_obj is not None else []) + list(call.args)
+                res = it.call(fv, args, dict(call.kwargs))
             o2 = Outcome('return', result=res)
         except PyExc as e:
             o2 = Outcome('raise', exc=e.obj.cls.name)
